@@ -166,6 +166,15 @@ def statement(o):
             if any(abs(a - b) > 1e-12 for a, b in zip(got, want)):
                 fails.append({"what": f"effect {fe}: prediction row with level {lv!r} ({'seen' if lv in observed else 'unseen'} in fitting) has {got}, expected {want}", "kind": "holdout-row"})
                 break
+    # per-state feature copies: only for listed states that have a reporting unit
+    for st in fr.get("sep", []):
+        has_rep = any(r["postal_code"] == st and r["reporting"] == 1 for r in rows)
+        for fname in fr["feats"]:
+            present = f"{fname}_{st}" in o["complete"]
+            if present and not has_rep:
+                fails.append({"what": f"per-state copy {fname}_{st} was created although state {st} has no reporting unit (states_for_separate_model={fr['sep']})", "kind": "state-copy"})
+            elif has_rep and not present:
+                fails.append({"what": f"state {st} has reporting units and is listed for a separate model, but there is no column {fname}_{st}", "kind": "state-copy"})
     # centring over all rows
     pc = o["complete"]
     for fname in fr["feats"]:
